@@ -6,8 +6,15 @@ Wrapper-mapping ops (answer = what the wrapper model says over the GENERATED fac
 `specOf` — is what the property demands; a difference is printed as `SPECDIFF`):
 
     wait C M RC | signal C RC | bcast C RC | lock M RC | trylock M RC | unlock M RC
-    newc AF RC | newm AF RC | freec C RC | freem M RC | ident | reset
-      C, M ∈ {obj, null}; RC = scripted native return code; AF = 1: the allocation fails
+    newc AF RC | newm AF RC | freec C RC | freem M RC | ident | ident2 | reset
+      C, M ∈ {obj, obj2, null} (`freec` / `freem`: obj, null); RC = scripted native return code;
+      AF = 1: the allocation fails
+
+There are two live objects of each kind.  The wrapper model is a function of the objects it is
+given (it has no state of its own): a pointer it computes is relative to the object passed for the
+parameter it was computed from, so the answer for `obj2` is the answer for `obj` with the pointers
+printed relative to the second object (`C2+off`, `M2+off`).  An implementation that remembers an
+object from an earlier call, or keeps state outside the object, disagrees.
 
 Client-model op (model only, used by the check for the scheduler-driven runs):
 
@@ -25,21 +32,22 @@ def fnName : NFn → String
   | .mutex_trylock => "mutex_trylock" | .mutex_unlock => "mutex_unlock"
   | .other n => "other:" ++ n
 
-def ptrStr : Ptr → String
+/-- `ct` / `mt`: which live object was passed for the cond / mutex parameter ("" or "2") -/
+def ptrStr (ct mt : String) : Ptr → String
   | .null => "NULL"
-  | .cond o => "C+" ++ toString o
-  | .mutex o => "M+" ++ toString o
+  | .cond o => "C" ++ ct ++ "+" ++ toString o
+  | .mutex o => "M" ++ mt ++ "+" ++ toString o
   | .unknown => "?"
 
-def callStr (c : NCall) : String := fnName c.fn ++ "(" ++ ",".intercalate (c.args.map ptrStr) ++ ")"
-def callsStr (cs : List NCall) : String := "[" ++ " ".intercalate (cs.map callStr) ++ "]"
+def callStr (ct mt : String) (c : NCall) : String := fnName c.fn ++ "(" ++ ",".intercalate (c.args.map (ptrStr ct mt)) ++ ")"
+def callsStr (cs : List NCall) (ct mt : String := "") : String := "[" ++ " ".intercalate (cs.map (callStr ct mt)) ++ "]"
 
 def boolStr : Option Bool → String
   | some true => "TRUE"
   | some false => "FALSE"
   | none => "?"
 
-def fmtBool (r : BoolRes) : String := "ret=" ++ boolStr r.ret ++ " calls=" ++ callsStr r.calls
+def fmtBool (r : BoolRes) (ct mt : String := "") : String := "ret=" ++ boolStr r.ret ++ " calls=" ++ callsStr r.calls ct mt
 def fmtNew (r : NewRes) : String :=
   "obj=" ++ (if r.obj then "1" else "0") ++ " calls=" ++ callsStr r.calls ++ " freed=" ++ (if r.freed then "1" else "0")
 def fmtFree (r : FreeRes) : String := "calls=" ++ callsStr r.calls ++ " freed=" ++ (if r.freed then "1" else "0")
@@ -47,6 +55,13 @@ def fmtFree (r : FreeRes) : String := "calls=" ++ callsStr r.calls ++ " freed=" 
 def sel (o : Obj) : String → Option Obj
   | "obj" => some o
   | "null" => some .nullp
+  | _ => none
+
+/-- selector with the second live object: (what the wrapper is given, tag of the object) -/
+def sel2 (o : Obj) : String → Option (Obj × String)
+  | "obj" => some (o, "")
+  | "obj2" => some (o, "2")
+  | "null" => some (.nullp, "")
   | _ => none
 
 def out2 (a b : String) : IO Unit := IO.println (if a = b then a else a ++ " SPECDIFF " ++ b)
@@ -90,28 +105,28 @@ def step (_ : Unit) (toks : List String) : IO (Unit × Bool) := do
   let rcOf (x : String) : Option Int := x.toInt?
   match toks with
   | ["wait", c, m, rc] =>
-    match sel .condObj c, sel .mutexObj m, rcOf rc with
-    | some c, some m, some rc => out2 (fmtBool (pCondWait g c m rc)) (fmtBool (pCondWait sp c m rc))
+    match sel2 .condObj c, sel2 .mutexObj m, rcOf rc with
+    | some (c, ct), some (m, mt), some rc => out2 (fmtBool (pCondWait g c m rc) ct mt) (fmtBool (pCondWait sp c m rc) ct mt)
     | _, _, _ => IO.println "bad-op"
   | ["signal", c, rc] =>
-    match sel .condObj c, rcOf rc with
-    | some c, some rc => out2 (fmtBool (pCondSignal g c rc)) (fmtBool (pCondSignal sp c rc))
+    match sel2 .condObj c, rcOf rc with
+    | some (c, ct), some rc => out2 (fmtBool (pCondSignal g c rc) ct) (fmtBool (pCondSignal sp c rc) ct)
     | _, _ => IO.println "bad-op"
   | ["bcast", c, rc] =>
-    match sel .condObj c, rcOf rc with
-    | some c, some rc => out2 (fmtBool (pCondBroadcast g c rc)) (fmtBool (pCondBroadcast sp c rc))
+    match sel2 .condObj c, rcOf rc with
+    | some (c, ct), some rc => out2 (fmtBool (pCondBroadcast g c rc) ct) (fmtBool (pCondBroadcast sp c rc) ct)
     | _, _ => IO.println "bad-op"
   | ["lock", m, rc] =>
-    match sel .mutexObj m, rcOf rc with
-    | some m, some rc => out2 (fmtBool (pMutexLock g m rc)) (fmtBool (pMutexLock sp m rc))
+    match sel2 .mutexObj m, rcOf rc with
+    | some (m, mt), some rc => out2 (fmtBool (pMutexLock g m rc) "" mt) (fmtBool (pMutexLock sp m rc) "" mt)
     | _, _ => IO.println "bad-op"
   | ["trylock", m, rc] =>
-    match sel .mutexObj m, rcOf rc with
-    | some m, some rc => out2 (fmtBool (pMutexTrylock g m rc)) (fmtBool (pMutexTrylock sp m rc))
+    match sel2 .mutexObj m, rcOf rc with
+    | some (m, mt), some rc => out2 (fmtBool (pMutexTrylock g m rc) "" mt) (fmtBool (pMutexTrylock sp m rc) "" mt)
     | _, _ => IO.println "bad-op"
   | ["unlock", m, rc] =>
-    match sel .mutexObj m, rcOf rc with
-    | some m, some rc => out2 (fmtBool (pMutexUnlock g m rc)) (fmtBool (pMutexUnlock sp m rc))
+    match sel2 .mutexObj m, rcOf rc with
+    | some (m, mt), some rc => out2 (fmtBool (pMutexUnlock g m rc) "" mt) (fmtBool (pMutexUnlock sp m rc) "" mt)
     | _, _ => IO.println "bad-op"
   | ["newc", af, rc] =>
     match af.toNat?, rcOf rc with
@@ -130,6 +145,9 @@ def step (_ : Unit) (toks : List String) : IO (Unit × Bool) := do
     | some m => out2 (fmtFree (runFree g g.mutexFree (envCM .nullp m))) (fmtFree (runFree sp sp.mutexFree (envCM .nullp m)))
     | none => IO.println "bad-op"
   | ["ident"] => out2 (identStr g) "ident mutex=same cond=same"
+  -- the wrapper model has no state and computes every pointer from the object it is given: across
+  -- the two live objects the identities are those of `ident`
+  | ["ident2"] => out2 ("ident2" ++ (identStr g).drop 5) "ident2 mutex=same cond=same"
   | ["reset"] => IO.println "ok"
   | ["pcrun", n, m, c, items, bc, seed, spur] =>
     match n.toNat?, m.toNat?, c.toNat?, items.toNat?, bc.toNat?, seed.toNat?, spur.toNat? with
